@@ -136,22 +136,30 @@ func (s *Statement) commitEvict(reclaimee *pod_info.PodInfo, evictOp evictOperat
 			reclaimee.Namespace, reclaimee.Name, reclaimee.Job)
 	}
 
-	previousStatus := reclaimee.Status
-	previousGpuGroup := reclaimee.GPUGroups
-	previousResourceClaimInfo := reclaimee.ResourceClaimInfo
-	previousIsVirtualStatus := reclaimee.IsVirtualStatus
 	if err := s.ssn.Cache.Evict(reclaimee.Pod, reclaimeePodGroup, evictOp.evictionMetadata, evictOp.message); err != nil {
 		log.InfraLogger.Errorf("Failed to evict task <%v/%v>: %v.", reclaimee.Namespace, reclaimee.Name, err)
-		if e := s.unevict(reclaimee, previousStatus, evictOp.previousNode, previousGpuGroup, previousResourceClaimInfo,
-			previousIsVirtualStatus); e != nil {
-			log.InfraLogger.Errorf("Failed to un-evict task <%v/%v>: %v.",
-				reclaimee.Namespace, reclaimee.Name, e)
-		}
 		return err
 	}
 	reclaimee.IsVirtualStatus = false
 
 	return nil
+}
+
+// undoTaskOperationsFrom reverts, newest first, every still valid operation at or after index from
+// that refers to the given task. It is used when committing the eviction of the task failed: the task
+// goes back to the state the eviction operation recorded (not to its current, virtually evicted one),
+// and later operations on the same task (e.g. pipelining it elsewhere) are not committed.
+func (s *Statement) undoTaskOperationsFrom(from int, task *pod_info.PodInfo) {
+	for i := len(s.operations) - 1; i >= from; i-- {
+		op := s.operations[i]
+		if op.Name() == undo || op.TaskInfo().UID != task.UID {
+			continue
+		}
+		if err := s.undoOperation(i); err != nil {
+			log.InfraLogger.Errorf("Failed to undo operation %d of task <%v/%v>: %v.",
+				i, task.Namespace, task.Name, err)
+		}
+	}
 }
 
 func (s *Statement) unevict(
@@ -576,6 +584,7 @@ func (s *Statement) Commit() error {
 			if err = s.commitEvict(taskInfo, evictOp); err != nil {
 				log.InfraLogger.Errorf("Failed to evict task <%v/%v>, error: <%v>",
 					taskInfo.Namespace, taskInfo.Name, err)
+				s.undoTaskOperationsFrom(i, taskInfo)
 			}
 		case pipeline:
 			log.InfraLogger.V(4).Infof("Pipelining task: %v/%v", taskInfo.Namespace, taskInfo.Name)
